@@ -12,7 +12,9 @@ def CHOOSE(*args):
     if (len(args) < 2):
         return error.NOT_AVAILABLE
 
-    index = args[0]
+    index = utils.parse_integer(args[0])
+    if isinstance(index, error.XLError):
+        return index
     if (index < 1 or index > 254):
         return error.VALUE
 
@@ -91,12 +93,12 @@ def INDEX(arr, row_num=DEFAULT, column_num=DEFAULT, area_num=DEFAULT):
     bidimensional = isinstance(arr[0], list)
 
     if row_num is not DEFAULT:
-        row_num = utils.parse_number(row_num)
+        row_num = utils.parse_integer(row_num)
         if isinstance(row_num, error.XLError):
             return row_num
 
     if column_num is not DEFAULT:
-        column_num = utils.parse_number(column_num)
+        column_num = utils.parse_integer(column_num)
         if isinstance(column_num, error.XLError):
             return column_num
 
